@@ -54,7 +54,7 @@ FieldsDiag(t, cap) ==
 SeqLens(t) == IF t.s \in HashKinds \cup {"BinaryHeap"} THEN <<0, 1>> ELSE <<0, 1, 2, 3>>
 
 LibVals(name) ==
-    CASE name \in {"ArcStr", "PathBuf"} -> [i \in 1..Len(StrVals) |-> B(StrVals[i])]
+    CASE name \in {"ArcStr", "PathBuf", "ArrayString"} -> [i \in 1..Len(StrVals) |-> B(StrVals[i])]
       [] name = "IpAddr" -> << EV(0, <<B(<<1, 0, 0, 127>>)>>), EV(0, <<B(Pattern(4))>>),
                                EV(1, <<B(Pattern(16))>>), EV(1, <<B(One(16))>>) >>
       [] name = "SocketAddr" ->
